@@ -120,8 +120,7 @@ theorem RInv.step_other {id : Nat} (hid : id < 256) {om : Option Image} {pre : L
   · intro bytes ho hh
     rcases List.mem_append.1 ho with ho | ho
     · exact hm.sends bytes ho hh
-    · have := hab _ ho
-      simp only [Out.About] at this
+    · have := (hab _ ho).1
       rw [hh] at this
       exact absurd (Option.some.inj this).symm (byte_ne hk256 hid hne)
 
